@@ -147,8 +147,16 @@ RegTxMarksK(s, ev, t, ok, k) ==
      \* from now on two registrations of the module hold records (what an export has to keep apart)
      \cup If(ok /\ Cardinality({ i \in DOMAIN t[k].ch : t[k].ch[i].recs # <<>> }) >= 2 /\ Cardinality({ i \in DOMAIN s[k].ch : s[k].ch[i].recs # <<>> }) < 2,
              L("rec:second-registration-with-records"))
-     \cup If(~SlotsOk(s, ev.msgs, k) /\ \A j \in DOMAIN ev.msgs : (IsBuy(ev.msgs[j]) /\ ChOk(k, ev.msgs[j])) => ev.msgs[j].n <= Remaining(s[k].p, C(ev.msgs[j]).limit),
+     \* (registered, written by its owner: the refusal is the slot check's and nothing else's)
+     \cup If(~SlotsOk(s, ev.msgs, k) /\ (\E j \in DOMAIN ev.msgs : IsBuy(ev.msgs[j]) /\ IsRegMsg(k, ev.msgs[j]))
+             /\ \A j \in DOMAIN ev.msgs : (IsBuy(ev.msgs[j]) /\ IsRegMsg(k, ev.msgs[j])) =>
+                    ChOk(k, ev.msgs[j]) /\ C(ev.msgs[j]).owner = ev.msgs[j].owner /\ ev.msgs[j].n <= Remaining(s[k].p, C(ev.msgs[j]).limit),
              L("buy:each-within-the-limit-sum-above-it"))
+     \* ... by a payer who holds locked eFUND (what a wrong admission would unlock)
+     \cup If(~SlotsOk(s, ev.msgs, k) /\ TxOf(ev).payer \in DOMAIN s.ent.locked /\ s.ent.locked[TxOf(ev).payer] > 0 /\ (\E j \in DOMAIN ev.msgs : IsBuy(ev.msgs[j]) /\ IsRegMsg(k, ev.msgs[j]))
+             /\ \A j \in DOMAIN ev.msgs : (IsBuy(ev.msgs[j]) /\ IsRegMsg(k, ev.msgs[j])) =>
+                    ChOk(k, ev.msgs[j]) /\ C(ev.msgs[j]).owner = ev.msgs[j].owner /\ ev.msgs[j].n <= Remaining(s[k].p, C(ev.msgs[j]).limit),
+             L("buy:each-within-the-limit-sum-above-it+locked-payer"))
      \cup If(AnyMsg(ev, LAMBDA m : IsBuy(m) /\ ~ChOk(k, m) /\ m.n <= s[k].p.max - s[k].p.def), L("buy:unregistered-id"))
      \cup If(ok /\ Len(s[k].ch) >= 1 /\ AnyMsg(ev, LAMBDA m : m.t = (IF k = "wrk" THEN "WReg" ELSE "BReg") /\ s[k].ch[Len(s[k].ch)].owner # m.owner), L("reg:second-owner"))
 
@@ -287,7 +295,7 @@ AllLabels == <<
   "fee:non-registry-tx-of-locked-holder", "exec:nested-registry-op", "send:to-escrow", "multi:later-message-fails-after-unlock",
   "wrk:rec:prune-at-default-limit", "bcn:rec:prune-at-default-limit", "wrk:rec:prune-at-raised-limit", "bcn:rec:prune-at-raised-limit", "wrk:rec:limit-above-lowered-max", "bcn:rec:limit-above-lowered-max", "wrk:rec:refill-after-purchase", "bcn:rec:refill-after-purchase", "wrk:rec:huge-height", "bcn:rec:huge-height",
   "wrk:rec:after-huge-height", "bcn:rec:after-huge-height", "wrk:rec:same-height-again", "bcn:rec:same-height-again", "wrk:rec:pruned-height-again", "bcn:rec:pruned-height-again", "wrk:reg:write-by-stranger", "bcn:reg:write-by-stranger", "wrk:buy:exactly-to-max", "bcn:buy:exactly-to-max", "wrk:buy:over-max", "bcn:buy:over-max",
-  "wrk:buy:huge", "bcn:buy:huge", "wrk:buy:limit-above-lowered-max", "bcn:buy:limit-above-lowered-max", "wrk:reg:registration-rolled-back", "bcn:reg:registration-rolled-back", "wrk:rec:two-in-one-tx", "bcn:rec:two-in-one-tx", "wrk:buy:two-in-one-tx", "bcn:buy:two-in-one-tx", "wrk:reg:second-owner", "bcn:reg:second-owner", "wrk:buy:each-within-the-limit-sum-above-it", "bcn:buy:each-within-the-limit-sum-above-it",
+  "wrk:buy:huge", "bcn:buy:huge", "wrk:buy:limit-above-lowered-max", "bcn:buy:limit-above-lowered-max", "wrk:reg:registration-rolled-back", "bcn:reg:registration-rolled-back", "wrk:rec:two-in-one-tx", "bcn:rec:two-in-one-tx", "wrk:buy:two-in-one-tx", "bcn:buy:two-in-one-tx", "wrk:reg:second-owner", "bcn:reg:second-owner", "wrk:buy:each-within-the-limit-sum-above-it", "bcn:buy:each-within-the-limit-sum-above-it", "wrk:buy:each-within-the-limit-sum-above-it+locked-payer", "bcn:buy:each-within-the-limit-sum-above-it+locked-payer",
   "wrk:buy:unregistered-id", "bcn:buy:unregistered-id",
   "release:fee-100-percent", "release:fee-zero", "claim:at-or-after-zero-time", "claim:sub-second", "claim:fractional-seconds", "claim:drained",
   "rate:live-with-elapsed-seconds", "rate:expired", "rate:drained", "topup:live-with-elapsed-seconds", "topup:expired-with-remainder",
